@@ -983,9 +983,12 @@ class CallMixin:
 
     def ev_ListComp(self, e, st):
         # [elt for x in seq] without filter: same length, element-wise image
-        if len(e.generators) != 1 or e.generators[0].ifs:
-            _unsup('list comprehension with filter / nesting', e)
+        if len(e.generators) != 1:
+            _unsup('list comprehension with nesting', e)
         gen = e.generators[0]
+        if gen.ifs:
+            yield self.filter_comp(e, gen, st), st
+            return
         vars_, rng, env, sq = self.bind_comprehension(gen, st)
         s2 = st.copy()
         s2.env.update(env)
@@ -1039,6 +1042,49 @@ class CallMixin:
                 st.assume(z3.ForAll([v], z3.Implies(z3.And(rng, *sides), arr[v - lo] == elt.z)))
         res = SeqV(elt.ty, arr, n)
         yield (res if self.specmode else self.new_list(st, elt.ty, arr, n, 'comp')), st
+
+    def filter_comp(self, e, gen, st):
+        """[elt for x in xs if cond]: the result is characterised completely by a strictly increasing index map `src` into xs whose image is
+        exactly the set of positions where cond holds (so: same elements, same order, nothing dropped, nothing added)"""
+        if not (self.is_pure(e.elt) and all(self.is_pure(c) for c in gen.ifs) and self.simple_elt(e.elt) and all(self.simple_elt(c) for c in gen.ifs)):
+            _unsup('filtered list comprehension with impure or compound element/condition', e)
+        vars_, rng, env, sq = self.bind_comprehension(gen, st)
+        if sq is None:
+            _unsup('filtered list comprehension over a non-sequence', e)
+        s, i = sq
+        s2 = st.copy()
+        s2.env.update(env)
+        n0 = len(s2.pc)
+        was = self.specmode
+        self.specmode += 1
+        try:
+            conds = [self.truthy(self.ev1(c, s2), s2) for c in gen.ifs]
+            elt = self.ev1(e.elt, s2)
+        finally:
+            self.specmode = was
+        if isinstance(elt, SeqV):
+            _unsup('filtered list comprehension of sequences', e)
+        # element and condition are attribute/index reads only (simple_elt): what their evaluation adds are heap typing facts, valid for
+        # every index in range
+        from .exprs import _mentions
+        for f in s2.pc[n0:]:
+            st.assume(z3.ForAll([i], z3.Implies(rng, f)) if _mentions(f, {i.get_id()}) else f)
+        cond = z3.And(*conds)
+        n = fresh('flen', I)
+        src = fresh('fsrc', z3.ArraySort(I, I))
+        inv = fresh('finv', z3.ArraySort(I, I))
+        arr = fresh('comp', z3.ArraySort(I, sort_of(elt.ty)))
+        k, k2 = z3.Int('k!flt'), z3.Int('k2!flt')
+        at = lambda f, ix: z3.substitute(f, (i, ix))
+        st.assume(0 <= n, n <= s.n)
+        st.assume(z3.ForAll([k], z3.Implies(z3.And(0 <= k, k < n),
+                                            z3.And(0 <= src[k], src[k] < s.n, at(cond, src[k]), arr[k] == at(elt.z, src[k]))),
+                            patterns=[arr[k], src[k]]))
+        st.assume(z3.ForAll([k, k2], z3.Implies(z3.And(0 <= k, k < k2, k2 < n), src[k] < src[k2]), patterns=[z3.MultiPattern(src[k], src[k2])]))
+        st.assume(z3.ForAll([i], z3.Implies(z3.And(0 <= i, i < s.n, cond), z3.And(0 <= inv[i], inv[i] < n, src[inv[i]] == i)),
+                            patterns=[z3.Select(s.arr, i), inv[i]]))
+        res = SeqV(elt.ty, arr, n)
+        return res if self.specmode else self.new_list(st, elt.ty, arr, n, 'comp')
 
     def set_binop(self, op, l, r, st):
         es = sort_of(l.ty.args[0])
